@@ -6,6 +6,7 @@
  *                 bit2: per-part validators on the halves split at the last '@'
  *                 bit3: direct idn2_to_ascii_8z on the domain half
  *                 bit4: "rfc changed after setup without a new setup" probe (C01/4)
+ *                 bit5: two confirmed set-ups in a row (m1 then m2) on one object, then validate
  *   L <hex>                                         the four local-part validators
  *   D <hex>                                         domain-part validators on the string
  *   N <fn> <k> <tok,tok,...> <prefixhex|-> <suffixhex|->   enumerate all token strings of length 0..k in canonical
@@ -242,11 +243,57 @@ static void do_A(char *line)
         }
         putchar('}');
     }
+    if (sections & 32) {
+        /* two confirmed set-ups in a row on one object (m1 then m2, including m1 == m2): mode m2's rules must apply */
+        int f4 = 1, m1, m2;
+        if (!first) putchar(',');
+        first = 0;
+        printf("\"sw\":{");
+        for (m1 = 0; m1 < 4; m1++) for (m2 = 0; m2 < 4; m2++) {
+            eav_t *e;
+            int ret;
+            if (!(modes & (1u << m2))) continue;
+            e = fresh_eav(0xC3);
+            eav_init(e);
+            e->tld_check = false;
+            e->rfc = (EAV_RFC)m1;
+            g_stage = "eav_setup#1";
+            if (eav_setup(e) != 0) { eav_free(e); free(e); continue; }
+            e->rfc = (EAV_RFC)m2;
+            g_stage = "eav_setup#2";
+            if (eav_setup(e) != 0) { eav_free(e); free(e); continue; }
+            g_stage = "eav_is_email-after-2-setups";
+            ret = eav_is_email(e, s, n);
+            if (!f4) putchar(',');
+            f4 = 0;
+            printf("\"%d%d\":[%d,%d]", m1, m2, ret, e->errcode);
+            eav_free(e); free(e);
+        }
+        putchar('}');
+    }
     printf("}\n");
     free(s);
 }
 
 #ifndef HAVE_IDNKIT
+/* X <hex> <suffixhex> : the four local-part validators on the sub-range [buf, buf+len) of a buffer that continues with
+ * <suffix> (then NUL): the verdict must depend on the range only, not on what follows it */
+static void do_X(char *line)
+{
+    char h1[1 << 18], h2[256];
+    size_t n, sl;
+    char *s, *suf, *buf;
+    if (sscanf(line, "X %262143s %255s", h1, h2) != 2) { printf("null\n"); return; }
+    s = hexdup(h1, &n);
+    suf = hexdup(h2, &sl);
+    buf = malloc(n + sl + 1);
+    memcpy(buf, s, n); memcpy(buf + n, suf, sl); buf[n + sl] = 0;
+    g_stage = "is_X_local-subrange";
+    printf("[%d,%d,%d,%d]\n", is_822_local(buf, buf + n), is_5321_local(buf, buf + n), is_5322_local(buf, buf + n),
+           is_6531_local(buf, buf + n));
+    free(buf); free(s); free(suf);
+}
+
 static void do_L(char *line)
 {
     size_t n;
@@ -450,6 +497,7 @@ int main(void)
         case 'A': do_A(line); break;
 #ifndef HAVE_IDNKIT
         case 'L': do_L(line); break;
+        case 'X': do_X(line); break;
         case 'D': do_D(line); break;
         case 'N': do_N(line); break;
         case 'U': do_U(line); break;
